@@ -36,8 +36,16 @@ fn describe(o: &run::Outcome, sc: &Scenario, index: Option<u64>) -> Value {
     })
 }
 
+/// Per-worker bookkeeping: which driver kinds were already sampled, which signatures already carry a
+/// full witness in this worker's report (the report keeps the first witness per signature only).
+#[derive(Default)]
+struct Local {
+    kinds: HashSet<&'static str>,
+    seen: HashSet<String>,
+}
+
 /// Runs one scenario and folds what was observed into `rep`.
-fn execute(rep: &mut Report, sc: &Scenario, index: Option<u64>, sampled_kinds: &mut HashSet<&'static str>) {
+fn execute(rep: &mut Report, sc: &Scenario, index: Option<u64>, local: &mut Local) {
     let result = catch_unwind(AssertUnwindSafe(|| run::run(sc)));
     let outcome = match result {
         Ok(Ok(o)) => o,
@@ -85,13 +93,18 @@ fn execute(rep: &mut Report, sc: &Scenario, index: Option<u64>, sampled_kinds: &
         rep.count("scenarios with an unjudged clause", 1);
     }
     for f in &outcome.findings {
+        if local.seen.contains(&f.sig) {
+            rep.violation(&f.sig, &f.what, Value::Null); // counted; the first witness is kept
+            continue;
+        }
+        local.seen.insert(f.sig.clone());
         let mut w = describe(&outcome, sc, index);
         w["clause"] = json!(f.sig);
         w["observed_vs_expected"] = f.detail.clone();
         rep.violation(&f.sig, &f.what, w);
     }
-    if outcome.class.is_some() && sc.payload() <= 96 && !sampled_kinds.contains(sc.kind()) && rep.wants_sample() {
-        sampled_kinds.insert(sc.kind());
+    if outcome.class.is_some() && sc.payload() <= 96 && !local.kinds.contains(sc.kind()) && rep.wants_sample() {
+        local.kinds.insert(sc.kind());
         let mut s = describe(&outcome, sc, index);
         s["findings"] = json!(outcome.findings.iter().map(|f| f.sig.clone()).collect::<Vec<_>>());
         rep.sample(s);
@@ -117,12 +130,32 @@ fn main() {
         report.inconclusive_fatal(&format!("vp-cipher only decides C05, not {}", cli.prop));
         std::process::exit(report.finish());
     }
-    if let Err(e) = vp_common::refcrypto::self_test() {
+    // workload sizes: quick ≈ 5.6 k schedules, thorough ≈ 560 k; --scale shrinks every count, the
+    // plaintext bound, the swept exchange and the secret pool
+    let scale = cli.scale();
+    let mult: u64 = cli.tier.pick(1, 100);
+    let shrink = scale.min(1.0);
+    let sizes = Sizes {
+        max_len: ((4096.0 * (shrink * 4.0).min(1.0)) as usize).clamp(8, 4096),
+        sweep_len: ((32.0 * shrink.sqrt()) as usize).clamp(4, 32),
+        secret_pool: ((2000.0 * mult as f64 * scale / 4.0) as u64).max(1),
+    };
+
+    // The reference brute-forces its S-box on every keying: milliseconds natively, ≈ 35 s per keying
+    // and ≈ 650 s for the whole self test when interpreted by Miri. `--ref-self-test 0` (honoured only
+    // in a Miri build, recorded in the evidence) leaves the published-vector test to the native run of
+    // the same sources; the cheap checks of `self_check` below always run.
+    let skip_ref_test = cfg!(miri) && cli.extra.get("ref-self-test").map(|v| v == "0").unwrap_or(false);
+    if skip_ref_test {
+        report.assume("Miri run: vp_common::refcrypto::self_test() (published vectors) was skipped on request (--ref-self-test 0); it runs in every native run of the same sources. The reference was still checked for self-inversion, split-invariance and against the raw AES block function of the aes crate");
+    } else if let Err(e) = vp_common::refcrypto::self_test() {
         report.inconclusive_fatal(&format!("reference cryptography failed its self test: {e}"));
         std::process::exit(report.finish());
     }
     tick("reference self test done");
-    if let Err(e) = run::self_check() {
+    // under a small scale the self check shares the first pooled secret (one keying in total)
+    let check_secret = if scale < 0.5 { generate::pool_secret(cli.seed, 0) } else { vec![7u8; 16] };
+    if let Err(e) = run::self_check(&check_secret, if scale < 0.5 { 12 } else { 200 }) {
         report.inconclusive_fatal(&format!("harness self check failed: {e}"));
         std::process::exit(report.finish());
     }
@@ -143,8 +176,8 @@ fn main() {
             });
         match loaded {
             Ok(sc) => {
-                let mut kinds = HashSet::new();
-                execute(&mut report, &sc, None, &mut kinds);
+                let mut local = Local::default();
+                execute(&mut report, &sc, None, &mut local);
                 report.set("replayed", json!(path.display().to_string()));
             }
             Err(e) => report.inconclusive_fatal(&format!("cannot load replay file {}: {e}", path.display())),
@@ -152,16 +185,6 @@ fn main() {
         std::process::exit(report.finish());
     }
 
-    // workload sizes: quick ≈ 5.6 k schedules, thorough ≈ 560 k; --scale shrinks every count, the
-    // plaintext bound, the swept exchange and the secret pool
-    let scale = cli.scale();
-    let mult: u64 = cli.tier.pick(1, 100);
-    let shrink = scale.min(1.0);
-    let sizes = Sizes {
-        max_len: ((4096.0 * (shrink * 4.0).min(1.0)) as usize).clamp(48, 4096),
-        sweep_len: ((32.0 * shrink.sqrt()) as usize).clamp(6, 32),
-        secret_pool: cli.scaled(2000 * mult),
-    };
     let wl = Workload {
         seed: cli.seed,
         sizes,
@@ -184,10 +207,10 @@ fn main() {
 
     let threads = cli.threads();
     if threads <= 1 {
-        let mut kinds = HashSet::new();
+        let mut local = Local::default();
         for i in 0..total {
             let sc = wl.scenario(i);
-            execute(&mut report, &sc, Some(i), &mut kinds);
+            execute(&mut report, &sc, Some(i), &mut local);
             if progress && (i % 10 == 9 || i + 1 == total) {
                 tick(&format!("{}/{total} scenarios, {} bytes judged after the switch", i + 1, report.counter("bytes judged after the switch")));
             }
@@ -198,10 +221,10 @@ fn main() {
         let base = &report;
         let parts = report::par_map(blocks, threads, |_, (lo, hi)| {
             let mut rep = base.fork();
-            let mut kinds = HashSet::new();
+            let mut local = Local::default();
             for i in *lo..*hi {
                 let sc = wl.scenario(i);
-                execute(&mut rep, &sc, Some(i), &mut kinds);
+                execute(&mut rep, &sc, Some(i), &mut local);
             }
             rep
         });
